@@ -210,11 +210,12 @@ pub fn replay(id: &str, path: &str) -> i32 {
                 1
             }
         }
-        "C05" | "C16" | "C09" | "C19" | "C13" | "C18" => {
+        "C05" | "C16" | "C09" | "C19" | "C13" | "C18" | "C07" => {
             let problems = match id {
                 "C05" => crate::e2::replay_c05(case),
                 "C16" => crate::e2::replay_c16(case),
                 "C09" => crate::c09::replay(case),
+                "C07" => crate::c07::replay(case),
                 "C19" => crate::c19::replay(case),
                 "C13" => crate::small::replay_c13(case),
                 _ => crate::small::replay_c18(case),
